@@ -293,6 +293,9 @@ fn replay_lines(lines: &[(usize, String)], mode: &str, skip: &std::collections::
         match case["k"].as_str().unwrap_or("") {
             "ans_state" => ans_state(&case, mode, &mut rep),
             "range_hist" => crate::range_replay::range_hist(&case, mode, &mut rep),
+            "huffman" => crate::symbol_replay::huffman_case(&case, mode, &mut rep),
+            "expgolomb" | "expgolomb_max" => crate::symbol_replay::golomb_case(&case, mode, &mut rep),
+            "bits" => crate::bits_replay::bits_case(&case, mode, &mut rep),
             "backend" => crate::backend_replay::backend_case(&case, mode, &mut rep),
             "fixed" | "uniform" | "fast" | "leaky" => crate::models::model_case(&case, mode, &mut rep),
             k => { eprintln!("unknown case kind {}", k); std::process::exit(2); }
